@@ -200,6 +200,63 @@ def check(run):
             break
         seen.setdefault(s, o)
     dist["determinism_strings"] = len(seen)
+    # 3a. the tokenizer on EVERY string of up to three ASCII punctuation characters (and up to four of the comparison /
+    # arrow characters), six times each, spread over one process: the same tokens every time (operator recognition is a
+    # table lookup; the longest-match choice must not depend on anything but the text)
+    import itertools
+    punct = "<>=!|&/%-+*~.:^#@?;,()"
+    sweep = ["".join(t) for k in (1, 2, 3) for t in itertools.product(punct, repeat=k)] + ["".join(t) for t in itertools.product("<>=!|-", repeat=4)]
+    sl = []
+    for rep in range(6):
+        order = sweep[:] if rep % 2 == 0 else sweep[::-1]
+        sl += [("w%d/%d" % (rep, sweep.index(x) if False else n), "tokens %s" % x.encode().hex()) for n, x in (enumerate(order) if rep % 2 == 0 else ((len(sweep) - 1 - m, y) for m, y in enumerate(order)))]
+    _, simpl, _ = ops.run_cmds("c16-opsweep", sl, sides=("impl",), timeout=900)
+    dist["operator_sweep_strings"] = len(sweep)
+    for n, x in enumerate(sweep):
+        outs = set((simpl.get("w%d/%d" % (rep, n)) or ["?"])[0] for rep in range(6))
+        run.count()
+        if len(outs) > 1:
+            run.violation("the tokens of %r differ between calls in one process" % x, {"kind": "nondeterministic", "sql": x, "hex": x.encode().hex(), "answers": sorted(outs)[:3]})
+            break
+    # 3b. ... nor on a NEAR-IDENTICAL statement parsed before it: Y differs from X only inside a quoted literal / quoted name
+    # (a blank doubled or inserted, the case of a letter flipped) or only in the layout between tokens.  Y parsed right after
+    # X (one process) must give what Y gives in a process that never saw X.
+    import re as _re
+    def variants(x):
+        out = []
+        quoted = [m for m in _re.finditer(r"'[^']*'|\"[^\"]*\"|`[^`]*`|\[[^\]]*\]", x) if len(m.group(0)) > 2]
+        for m in quoted[:3]:
+            q = m.group(0)
+            inner = q[1:-1]
+            alts = [inner.replace(" ", "  ") if " " in inner else inner[:len(inner) // 2] + " " + inner[len(inner) // 2:],
+                    inner.swapcase() if inner.swapcase() != inner else inner + "x",
+                    inner.replace("  ", " ") if "  " in inner else inner + " "]
+            for a in alts:
+                if a != inner:
+                    out.append(x[:m.start()] + q[0] + a + q[-1] + x[m.end():])
+        out.append(x.replace(" ", "\n\t "))
+        return out
+    with_quotes = [x for x in stmts if _re.search(r"'[^']+'|\"[^\"]+\"|`[^`]+`|\[[^\]]+\]", x)]
+    fixed = ["CREATE TABLE q (a DEFAULT ',  ', \"unit  price\" TEXT DEFAULT 'a b')", "CREATE INDEX qi ON q (\"unit  price\", [a  b])", "CREATE TABLE q2 (`x y` DEFAULT 'Ab', b DEFAULT \"c  d\")"]
+    pairs3 = []
+    for x in fixed + rng.sample(with_quotes, min(len(with_quotes), 120 if quick else 1500)):
+        for y in variants(x):
+            pairs3.append((x, y))
+    la, lb = [], []
+    for n, (x, y) in enumerate(pairs3):
+        la.append(("x%d" % n, "parse %s" % x.encode("utf-8", "surrogatepass").hex()))
+        la.append(("y%d" % n, "parse %s" % y.encode("utf-8", "surrogatepass").hex()))
+        lb.append(("y%d" % n, "parse %s" % y.encode("utf-8", "surrogatepass").hex()))
+    _, ia, _ = ops.run_cmds("c16-near-a", la, sides=("impl",), timeout=900)
+    _, ib, _ = ops.run_cmds("c16-near-b", lb[::-1], sides=("impl",), timeout=900)
+    dist["near_identical_pairs"] = len(pairs3)
+    for n, (x, y) in enumerate(pairs3):
+        run.count()
+        after, alone = (ia.get("y%d" % n) or ["?"])[0], (ib.get("y%d" % n) or ["?"])[0]
+        if after != alone:
+            run.violation("Parse(%r) gives a different result when %r was parsed before it" % (y[:90], x[:90]),
+                          {"kind": "history-dependent", "sql": y, "parsed_before": x, "after": after[:300], "in_a_process_that_never_saw_it": alone[:300]})
+            break
     # 4. locality: what is reported about one column / indexed column does not depend on its neighbours
     conn = sqlite3.connect(":memory:")
     conn.execute("CREATE TABLE other(x PRIMARY KEY)")
